@@ -37,7 +37,15 @@ from inscripta.biocantor.sequence.alphabet import Alphabet  # noqa: E402
 KINDS = ["single", "compound", "parent", "sequence", "cds", "transcript", "feature", "gene", "featcoll", "annot"]
 MODES = ["none", "noseq", "chrom", "chunk"]
 STRANDS = {"+": Strand.PLUS, "-": Strand.MINUS, ".": Strand.UNSTRANDED}
-QUAL_KEYS = ["note", "db_xref", "k1", "product", "gene_id", "transcript_id", "locus_tag", "feature_id", "protein_id"]
+# Qualifier keys are disjoint between the levels of a hierarchy unless the recipe is a `share` recipe: then parent and
+# children carry a common key and/or a key that collides with one of the keys the exporters add themselves
+# (gene_id, transcript_id, ...).  Key collisions are what the shallow-copy defect F-C10b needs.
+LEVEL_KEYS = {"gene": ["gnote", "gxref"], "tx": ["tnote", "txref"], "feat": ["fnote", "fxref"],
+              "fc": ["cnote", "cxref"], "annot": ["anote"], "cds": ["pnote"]}
+SHARED_KEYS = ["note", "db_xref", "k1"]
+BUILTIN_KEYS = {"gene": ["gene_id", "locus_tag", "gene_name"], "tx": ["transcript_id", "protein_id", "transcript_name"],
+                "feat": ["feature_id", "feature_name"], "fc": ["feature_collection_id", "locus_tag"],
+                "cds": ["protein_id", "product"], "annot": []}
 QUAL_VALS = ["a", "b", "c", "1", "x y", "G1", "T1"]
 BIOTYPES = ["protein_coding", "lncRNA", "tRNA", None]
 
@@ -60,13 +68,18 @@ def _blocks(rng, lo, hi, k, allow_adjacent=True):
     return bl
 
 
-def _quals(rng, p_any=0.7, force_keys=()):
+def _quals(rng, level, shared_key=None, p_any=0.7):
+    """`shared_key`: None, or a key every level of a `share` recipe carries; a share recipe also gets (50%) a key
+    that collides with an exporter's own key at this level."""
     d = {}
     if rng.random() < p_any:
-        for key in rng.sample(QUAL_KEYS, rng.randint(1, 3)):
+        keys = LEVEL_KEYS[level]
+        for key in rng.sample(keys, rng.randint(1, len(keys))):
             d[key] = rng.sample(QUAL_VALS, rng.randint(1, 2))
-    for key in force_keys:
-        d[key] = rng.sample(QUAL_VALS, rng.randint(1, 2))
+    if shared_key:
+        d[shared_key] = rng.sample(QUAL_VALS, rng.randint(1, 2))
+        if BUILTIN_KEYS[level] and rng.random() < 0.5:
+            d[rng.choice(BUILTIN_KEYS[level])] = rng.sample(QUAL_VALS, 1)
     return d or None
 
 
@@ -266,7 +279,7 @@ def _tx_spec(rng, L, strand=None, coding=None, shared_key=None, i=0):
     spec = {"blocks": exons, "strand": strand, "id": rng.choice([f"T{i}", None]), "symbol": rng.choice([f"tx{i}", None]),
             "biotype": rng.choice(BIOTYPES), "primary": None, "protein_id": rng.choice([None, f"P{i}"]),
             "product": rng.choice([None, "prod"]),
-            "qualifiers": _quals(rng, force_keys=[shared_key] if shared_key else ())}
+            "qualifiers": _quals(rng, "tx", shared_key)}
     if coding is None:
         coding = rng.random() < 0.7
     if coding:
@@ -281,12 +294,12 @@ def _feat_spec(rng, L, strand=None, shared_key=None, i=0):
     return {"blocks": _blocks(rng, 2, L - 2, rng.randint(1, 3)), "strand": strand,
             "types": rng.choice([None, ["promoter"], ["a", "b"]]), "name": rng.choice([None, f"feat{i}"]),
             "id": rng.choice([None, f"F{i}"]), "primary": None,
-            "qualifiers": _quals(rng, force_keys=[shared_key] if shared_key else ())}
+            "qualifiers": _quals(rng, "feat", shared_key)}
 
 
 def _gene_spec(rng, L, share, i=0):
     strand = rng.choice("+-")
-    key = rng.choice(QUAL_KEYS[:3]) if share else None
+    key = rng.choice(SHARED_KEYS) if share else None
     n = rng.randint(1, 3)
     txs, seen = [], set()
     for j in range(n):
@@ -297,11 +310,11 @@ def _gene_spec(rng, L, share, i=0):
             txs.append(t)
     return {"txs": txs, "id": rng.choice([None, f"G{i}"]), "symbol": rng.choice([None, f"gene{i}"]),
             "biotype": rng.choice(BIOTYPES[:3]), "locus_tag": rng.choice([None, f"LT{i}"]),
-            "qualifiers": _quals(rng, force_keys=[key] if key else ())}
+            "qualifiers": _quals(rng, "gene", key)}
 
 
 def _fc_spec(rng, L, share, i=0):
-    key = rng.choice(QUAL_KEYS[:3]) if share else None
+    key = rng.choice(SHARED_KEYS) if share else None
     feats, seen = [], set()
     for j in range(rng.randint(1, 3)):
         f = _feat_spec(rng, L, shared_key=key, i=10 * i + j)
@@ -310,7 +323,7 @@ def _fc_spec(rng, L, share, i=0):
             feats.append(f)
     return {"feats": feats, "name": rng.choice([None, f"fc{i}"]), "id": rng.choice([None, f"FC{i}"]),
             "type": rng.choice([None, "regulatory"]), "locus_tag": rng.choice([None, f"LT{i}"]),
-            "qualifiers": _quals(rng, force_keys=[key] if key else ())}
+            "qualifiers": _quals(rng, "fc", key)}
 
 
 def _span(spec):
@@ -408,16 +421,18 @@ def make(kind, rng, mode=None):
         c = _cds_spec(rng, exons, strand) or {"blocks": [(2, 11)], "strand": strand, "frames": [0]}
         c["protein_id"] = rng.choice([None, "P1"])
         c["product"] = rng.choice([None, "prod"])
-        c["qualifiers"] = _quals(rng, force_keys=["protein_id"] if share else ())
+        c["qualifiers"] = _quals(rng, "cds", "note" if share else None)
+        if share:
+            c["protein_id"], c["product"] = "P1", "prod"
         d["cds"] = c
     elif kind == "transcript":
-        d["tx"] = _tx_spec(rng, L, shared_key="transcript_id" if share else None)
+        d["tx"] = _tx_spec(rng, L, shared_key="note" if share else None)
         if share:
-            d["tx"]["id"] = "T0"
+            d["tx"].update(id="T0", symbol="tx0", protein_id="P0")
     elif kind == "feature":
-        d["feat"] = _feat_spec(rng, L, shared_key="feature_id" if share else None)
+        d["feat"] = _feat_spec(rng, L, shared_key="note" if share else None)
         if share:
-            d["feat"]["id"] = "F0"
+            d["feat"].update(id="F0", name="feat0")
     elif kind == "gene":
         d["gene"] = _gene_spec(rng, L, share)
     elif kind == "featcoll":
@@ -428,7 +443,7 @@ def make(kind, rng, mode=None):
         d["annot"] = {"genes": [_gene_spec(rng, L, share, i) for i in range(ng)],
                       "fcs": [_fc_spec(rng, L, share, 5 + i) for i in range(nf)],
                       "name": rng.choice([None, "ac"]), "id": rng.choice([None, "AC1"]),
-                      "qualifiers": _quals(rng, 0.4)}
+                      "qualifiers": _quals(rng, "annot", None, 0.4)}
     if "chunk" not in d:
         span = _span(d) or (L // 3, 2 * L // 3)
         d["chunk"] = _chunk_window(rng, L, span)
